@@ -31,7 +31,10 @@ def dispatch (line : String) : String :=
     | "walk" => Walk.handle "walk" args
     | "chain" => Walk.handle "chain" args
     | "read" => Bytes.handle "read" args
-    | "roundtrip" => Bytes.handle "roundtrip" args
+    | "roundtrip" =>
+      (match args with
+       | "ctx" :: _ => EncodeCtx.handle args          -- C02: contexts as register files (MdModel.EncodeCtx)
+       | _ => Bytes.handle "roundtrip" args)
     | "index" => Index.handle "index" args
     | "json" => Json.handle "json" args
     | "jsonck" => Json.handle "jsonck" args
